@@ -80,6 +80,12 @@ def main():
             res["demo_clean"] = next((ln for ln in out.splitlines() if ln.startswith("PROPERTY")), out.strip()[-200:])
             sh("rm -f tests-pairing.json", cwd=wt)
         res["confirmed"] = bool(res.get("applies") and res.get("tests_pass") and str(res.get("demo_with_change", "")).startswith("PROPERTY BROKEN") and str(res.get("demo_clean", "")).startswith("PROPERTY HOLDS"))
+    if "--confirm-only" in sys.argv:
+        # the check itself is run by tools/sweep_seeds.py (parallel scratch copies)
+        meta["verif"] = res
+        json.dump(meta, open(meta_p, "w"), indent=1)
+        print(f"SEED {pid}-{k}: confirmed={res.get('confirmed')} tests={res.get('tests')!r} with={str(res.get('demo_with_change'))[:60]!r} clean={str(res.get('demo_clean'))[:40]!r}")
+        return 0
     # ---- run the checks against /repo with the change applied
     rc, out = sh("git status --porcelain --untracked-files=no", cwd=REPO)
     if out.strip():
